@@ -54,9 +54,11 @@ LEVEL_TEXT = ('Machine-checked theorems for trees, paths and virtual roots of an
               'ResourceTreeTraverser.__call__ equals the declarative outcome (context = resource at the longest walkable '
               'prefix, view name / subpath from the rest, virtual root = resource at the virtual-root segments, walk never '
               "leaves the virtual root's subtree), the characterisation of the walk is unique, '..' never climbs above the "
-              'root / virtual root, tuple paths survive quoting+decoding, and memoisation (LRU and dictionary caches, any '
-              'history) never changes an answer. `traversed` is proved equal to the consumed segments without a virtual '
-              'root or when the path is exhausted, and refuted otherwise (known finding).')
+              'root / virtual root, and memoisation of split_path_info (bounded LRU, any cache state, any history of '
+              'traversals) never changes an answer. `traversed` is proved equal to the consumed segments without a virtual '
+              'root or when the path is exhausted, and refuted otherwise (known finding). traverse()/find_resource(), '
+              'traversal_path(_info), quote_path_segment and the percent/UTF-8 plumbing are modelled and validated by '
+              'correspondence only.')
 LEVEL_NOTE = ('Trusted: Coq kernel; hand-written model (shape-pinned skeleton, regenerated expressions, validated by '
               'correspondence); Python harness; webob request parsing and CPython codecs modelled and validated, not verified. '
               'The history clause is proved for the memo state machines of Proofs/C02 and validated on the real caches by '
@@ -279,6 +281,13 @@ def gen_case(rng):
             ops.append(o)
         else:
             ops.append(gen_op(rng, tree))
+    if rng.random() < 0.10:
+        # the same segment quoted under another safe set, then used in a tuple path (segment cache)
+        seg = rng.choice(['%41', 'a%2Fb', '%', '%zz', 'a:b', 'a/b', 'a b', 'é'])
+        k = rng.randrange(len(ops) + 1)
+        pre = [''] if rng.random() < 0.7 else []
+        ops[k:k] = [{'k': 'quote', 'seg': seg, 'safe': rng.choice(SAFES)},
+                    {'k': rng.choice(['api', 'find']), 'start': [], 'path': pre + [seg]}]
     return {'tree': tree, 'ops': ops}
 
 
@@ -356,7 +365,26 @@ def shrinks(case):
     for i, o in enumerate(ops):
         if o.get('start'):
             yield {'tree': case['tree'], 'ops': ops[:i] + [dict(o, start=[])] + ops[i + 1:]}
-    yield from generic_shrinks(case)
+    # keep WSGI-shaped inputs WSGI-shaped: a shrink must not strip the leading '/' of a PATH_INFO /
+    # virtual-root header (that would turn one failure into a different, less telling one)
+    wf = _wsgi_shaped(case)
+    for cand in generic_shrinks(case):
+        if wf and not _wsgi_shaped(cand):
+            continue
+        yield cand
+
+
+def _wsgi_shaped(case):
+    try:
+        for o in case['ops']:
+            if o.get('k') == 'req':
+                for key in ('path_info', 'vroot'):
+                    v = o.get(key)
+                    if isinstance(v, str) and v != '' and not v.startswith('/'):
+                        return False
+        return True
+    except Exception:
+        return False
 
 
 # ------------------------------------------------------------------ wire
@@ -552,6 +580,15 @@ def _run_op(root, o):
 def run_impl(case):
     if not _impl:
         setup('quick')
+    # a case is a self-contained history: start from cold caches so that a replay file reproduces
+    # in a fresh process exactly what was observed (lru_cache.cache_clear is public functools API)
+    T = _impl['T']
+    for name in ('split_path_info', 'traversal_path_info', '_join_path_tuple'):
+        clear = getattr(getattr(T, name, None), 'cache_clear', None)
+        if clear is not None:
+            clear()
+    if isinstance(getattr(T, '_segment_cache', None), dict):
+        T._segment_cache.clear()
     root = build_tree(case['tree'])
     return [_run_op(root, o) for o in case['ops']]
 
@@ -638,13 +675,9 @@ def kinds(case, obs):
                       else 'entry:' + k)
         if _ok(o):
             ctx = node_at(case['tree'], o[1])
-            if o[2] == '' and not (op['k'] == 'req' and False):
-                out = 'exhausted-or-empty-view'
-            else:
-                out = 'stopped'
-            n_v = len(o[6])
-            if n_v:
-                ks.append('vroot-reached' if o[5] != o[7] or n_v == 0 else 'vroot-not-reached')
+            out = 'exhausted-or-empty-view' if o[2] == '' else 'stopped'
+            if o[6]:
+                ks.append('vroot-reached' if o[5] != o[7] else 'vroot-not-reached')
             if out == 'stopped':
                 out = 'stopped-at-leaf' if ctx is None else 'stopped-missing-or-selector'
             ks.append('out:' + out)
